@@ -24,7 +24,7 @@ func init() {
 			"distinct = distinct (document, graph, op, fault plan); non-trivial = the failing call lies below the root level or inside a list or a fragment",
 		Technique:      "exhaustive fault enumeration over every resolver invocation of every bounded request, on the real resolver, against a reference executor",
 		Assumptions:    []string{"faults are keyed by (node, field): every invocation of that field on that node fails", "under reflection only method-backed fields can fail"},
-		QuickBudget:    120 * time.Second,
+		QuickBudget:    160 * time.Second,
 		ThoroughBudget: 25 * time.Minute,
 	})
 }
